@@ -114,6 +114,9 @@ def run_case(case):
             except Exception as err:
                 bad("discretize-raised", f"{type(err).__name__}: {err}", a=a, b=b)
                 continue
+            if len(d) < 2:
+                bad("discretize-end-points", f"discretize({a},{b}) returned {len(d)} point(s)", a=a, b=b)
+                continue
             if np.linalg.norm(d[0] - pa) > ptol or np.linalg.norm(d[-1] - pb) > ptol:
                 bad("discretize-end-points", f"discretize({a},{b}) runs {d[0].round(6).tolist()} .. {d[-1].round(6).tolist()}, points at the parameters {pa.round(6).tolist()} .. {pb.round(6).tolist()}", a=a, b=b)
     # 2. interpolation through the defining points
